@@ -33,6 +33,8 @@ impl log::Log for SinkLogger {
 static LOGGER: SinkLogger = SinkLogger;
 /// checks whose subject can reach a log statement of the library
 const LOG_PASS: [&str; 14] = ["C02", "C03", "C04", "C05", "C06", "C07", "C08", "C09", "C11", "C15", "C16", "C17", "C18", "C19"];
+/// checks whose subject can be used by several OS threads at once
+const THREAD_PASS: [&str; 4] = ["C01", "C02", "C03", "C10"];
 /// build variant of this binary: "" = default features, optimised, debug assertions and overflow
 /// checks on; or the library's optional cargo feature; or the optimised build without assertions
 pub fn variant() -> &'static str {
@@ -72,6 +74,7 @@ fn main() {
         let tier = if args[3] == "thorough" { Tier::Thorough } else { Tier::Quick };
         let (lo, hi) = args[4].split_once("..").unwrap_or(("0", "0"));
         let skip: BTreeSet<usize> = args[5].split(',').filter_map(|s| s.parse().ok()).collect();
+        crate::core::alloc::refuse_absurd_requests(true);
         let space = match props::iso_space(&args[1], &args[2], tier) {
             Some(s) => s,
             None => machinery("unknown iso space"),
@@ -153,6 +156,13 @@ fn main() {
         Ok(Err(e)) => machinery(&e),
         Err(p) => machinery(&format!("harness panic: {p}")),
     };
+    if THREAD_PASS.contains(&id.as_str()) && variant().is_empty() {
+        // engine E-thread: every interleaving of two or three OS threads using what the library
+        // lets them share (core/thr.rs, /verif/harness-thr)
+        if let Err(e) = crate::core::thr::explore_into(&ctx, &id, &mut run) {
+            machinery(&e);
+        }
+    }
     if LOG_PASS.contains(&id.as_str()) {
         // the log pass: the same exploration with a logger installed at Trace.  Findings already
         // seen without the logger are the same defects; new ones carry the prefix log=trace/.
@@ -179,6 +189,43 @@ fn main() {
             Ok(Err(e)) => machinery(&format!("log pass: {e}")),
             Err(p) => machinery(&format!("harness panic in the log pass: {p}")),
         }
+    }
+    if variant().is_empty() {
+        // the env pass: the process environment is an input too.  For every environment-variable
+        // name the library sources can read (core/dict.rs::env_names; none on the pinned tree)
+        // the same exploration runs again with that variable set, for each value below.
+        let names = crate::core::dict::env_names();
+        let mut passes = vec![];
+        for name in &names {
+            for value in ["1", "0", "42"] {
+                if std::env::var_os(name).is_some() {
+                    continue;
+                }
+                std::env::set_var(name, value);
+                let again = crate::core::par::catch(|| (prop.run)(&ctx));
+                std::env::remove_var(name);
+                match again {
+                    Ok(Ok(r2)) => {
+                        let mut fresh = 0u64;
+                        for (k, (mut f, n)) in r2.findings {
+                            if run.findings.contains_key(&k) {
+                                continue;
+                            }
+                            let key = format!("env={name}={value}/{k}");
+                            f.key = key.clone();
+                            f.detail = format!("with the environment variable {name}={value} set in the process: {}", f.detail);
+                            f.case = serde_json::json!({"env": [name, value], "case": f.case});
+                            run.findings.insert(key, (f, n));
+                            fresh += 1;
+                        }
+                        passes.push(serde_json::json!({"variable": name, "value": value, "evaluations": r2.coverage.get("evaluations"), "findings_not_seen_without_it": fresh}));
+                    }
+                    Ok(Err(e)) => machinery(&format!("env pass {name}={value}: {e}")),
+                    Err(p) => machinery(&format!("harness panic in the env pass {name}={value}: {p}")),
+                }
+            }
+        }
+        run.coverage.insert("env_pass".into(), serde_json::json!({"variables_the_sources_can_read": names, "passes": passes}));
     }
     if !variant().is_empty() {
         // a feature-variant build: its findings are keyed apart from those of the default build
@@ -261,11 +308,30 @@ fn main() {
 /// Replay a case; cases of the log pass are replayed with the logger at Trace, and keys get the
 /// prefixes the run gave them.
 fn replay_case(prop: &props::Prop, ctx: &Ctx, case: &serde_json::Value) -> Result<Vec<Finding>, String> {
+    if let Some(ev) = case.get("env").and_then(|e| e.as_array()) {
+        // a case of the env pass: the same replay with the variable set, keys prefixed as the run did
+        let (name, value) = (ev[0].as_str().unwrap_or("").to_string(), ev[1].as_str().unwrap_or("").to_string());
+        std::env::set_var(&name, &value);
+        let r = replay_case(prop, ctx, &case["case"]);
+        std::env::remove_var(&name);
+        return r.map(|fs| {
+            fs.into_iter()
+                .map(|mut f| {
+                    f.key = format!("env={name}={value}/{}", f.key);
+                    f.case = serde_json::json!({"env": [name, value], "case": f.case});
+                    f
+                })
+                .collect()
+        });
+    }
     let (inner, trace) = if case.get("log").and_then(|l| l.as_str()) == Some("trace") { (&case["case"], true) } else { (case, false) };
     if trace {
         set_trace(true);
     }
-    let r = (prop.replay)(ctx, inner);
+    let r = match crate::core::thr::replay(&ctx.id, inner) {
+        Some(r) => r,
+        None => (prop.replay)(ctx, inner),
+    };
     if trace {
         set_trace(false);
     }
